@@ -290,7 +290,7 @@ theorem parseF64_plain (ds fs : Str) (hd : ds.all isDigit = true) (hne : ds ≠ 
     have hall : (c :: t).all isDigit = true := by simp [hd.1, hd.2]
     obtain ⟨t1, t2⟩ := takeWhile_stop isDigit (c :: t) '.' fs hall (by decide)
     unfold parseUnsignedDecimal
-    simp only [t1, t2, takeWhile_all isDigit fs hfs, dropWhile_all isDigit fs hfs, List.isEmpty_cons, Bool.false_and,
+    simp only [t1, t2, fracPart, takeWhile_all isDigit fs hfs, dropWhile_all isDigit fs hfs, List.isEmpty_cons, Bool.false_and,
       Bool.false_eq_true, if_false, parseExponent]
     exact ⟨_, rfl⟩
 
